@@ -13,6 +13,8 @@ from . import core
 
 H2 = ('proto::', 'frame::', 'codec::', 'hpack::', 'client::', 'server::', 'share::', 'ext::', 'error::')
 
+_FN_CALL = ('std::ops::FnMut::call_mut', 'std::ops::FnOnce::call_once', 'std::ops::Fn::call')
+
 # combinators that turn a Result into something which must itself be consumed
 PASS = (
     'std::result::Result::map', 'std::result::Result::map_err', 'std::result::Result::and_then', 'std::result::Result::or_else',
@@ -119,12 +121,16 @@ def sites(F):
         if '::tests::' in name or not name.lstrip('<').startswith(H2):
             continue
         uses = None
-        for bi, t in f.calls(lambda t: t['fn'].lstrip('<').startswith(H2)):
-            cf = F.fns.get(t['fn'])
-            ret = cf.ret if cf is not None else ''
-            if not (ret.startswith('std::result::Result<') or ret.startswith('std::task::Poll<std::result::Result<') or ret.startswith('core::result::Result<')):
-                continue
+        for bi, t in f.calls(lambda t: t['fn'].lstrip('<').startswith(H2) or t['fn'].startswith(_FN_CALL)):
             if len(t['d']) != 1:
+                continue
+            if t['fn'].startswith(_FN_CALL):
+                # a callback / closure parameter invoked by h2 code (Store::try_for_each): its Result counts as well
+                ret = str(f.local_ty(t['d'][0]))
+            else:
+                cf = F.fns.get(t['fn'])
+                ret = cf.ret if cf is not None else ''
+            if not (ret.startswith('std::result::Result<') or ret.startswith('std::task::Poll<std::result::Result<') or ret.startswith('core::result::Result<')):
                 continue
             if uses is None:
                 uses = _uses(f)
